@@ -269,3 +269,42 @@ package server
 //@ contract recvBMPMsg
 //@   props C27
 //@   alloc <= 1048576
+
+// Property C22, negotiation details. The negotiated hold time is the smaller of
+// the local value and the peer's offer (in seconds); a session goes on to
+// OpenConfirm only with the configured peer AS (after the 4-octet AS capability
+// has been taken into account); an internal peer presenting our own BGP
+// identifier is rejected (RFC 6286).
+//@ contract (*openSentState).handleOpenMessage
+//@   old lh time.Duration = s.fsm.peer.holdTime
+//@   ensures[C22] lh >= 0 && lh < 1<<52 ==> s.fsm.holdTime == ite(lh < time.Duration(openMsg.HoldTime)*time.Second, lh, time.Duration(openMsg.HoldTime)*time.Second)
+//@   ensures[C22] spec_isOpenConfirm(result0) ==> s.peerASNRcvd == s.fsm.peer.peerASN
+
+//@ contract (*openSentState).openMsgReceived
+//@   old internal bool = s.fsm.peer.localASN == s.fsm.peer.peerASN
+//@   old ourID bool = s.fsm.peer.routerID == openMsg.BGPIdentifier
+//@   old bmp bool = s.fsm.isBMP
+//@   ensures[C22] !bmp && internal && ourID ==> spec_isIdle(result0)
+
+// Property C24, collision handling proper. The FSM that received the OPEN may go
+// on (result false) only if no other connection of the peer is Established;
+// another connection is told to cease only while in OpenConfirm and only when
+// the identifier/AS comparison says so; and the comparison uses the identifier
+// from the OPEN just received.
+//@ contract (*FSM).cease
+//@   props C24
+//@   trusted sends the Cease event to the FSM's goroutine (channels are not modelled)
+//@   modifies nothing
+
+//@ contract (*peer).collisionHandling
+//@   props C24
+//@   nosafety
+//@   requires p != nil && callingFSM != nil && callingFSM.peer != nil && forall(k, 0, len(p.fsms), p.fsms[k] != nil)
+//@   ensures !result ==> forall(k, 0, len(p.fsms), p.fsms[k] == callingFSM || !isEstablishedState(p.fsms[k].state))
+//@   call cease args recv *FSM requires recv != callingFSM && isOpenConfirmState(recv.state) && p.shouldCeaseOnCollision(callingFSM)
+//@   loop 0 vars rangeindex int
+//@   loop 0 invariant forall(k, 0, rangeindex+1, p.fsms[k] == callingFSM || !isEstablishedState(p.fsms[k].state))
+
+//@ contract (*openSentState).openMsgReceived
+//@   props C24
+//@   call[C24] collisionHandling requires s.fsm.neighborID == openMsg.BGPIdentifier
